@@ -19,7 +19,7 @@ func init() {
 		Meta: report.Meta{
 			Property: "C20",
 			Rule: "Q: explicit-state breadth-first search over container.Queue[int] with operations {Enqueue(next sequence number), Dequeue, Peek, Size}, states keyed by a reflective dump with payloads renumbered relative to the oldest live element (sound by parametricity of Queue[T]), " +
-				"every reachable configuration holding <= 136 (quick) / 300 (thorough) elements expanded (capacities 8..256 / 512: every growth with every position of the head, wrapped buffers included); K: the same for container.Stack[int] with {Push, PushAll(2), Pop, Peek, Size, Clear} up to 140 / 600 elements, to closure, keys include the capacity of the backing array; every transition compared with a slice model (returned values, sizes, panics only on empty) and followed by draining the container against the model (its whole observable state); " +
+				"every reachable configuration holding <= 136 (quick) / 300 (thorough) elements expanded (capacities 8..256 / 512: every growth with every position of the head, wrapped buffers included); K: the same for container.Stack[int] with {Push, PushAll(2 elements from a caller-owned slice that is overwritten and appended to right after the call), Pop, Peek, Size, Clear} up to 140 / 600 elements, to closure, keys include the capacity of the backing array; every transition compared with a slice model (returned values, sizes, panics only on empty) and followed by draining the container against the model (its whole observable state); " +
 				"T: the token stream of the indentation-aware lexer (parser.NewYarnSpinnerLexer drained through CommonTokenStream.Fill) on every byte string of length <=4 (quick) / 5 (thorough) over a 20-symbol alphabet reaching every lexer mode, raw and inside a node body, and on every line structure of <=4 (quick) / 5 (thorough) lines with indents from {0,1,2,4,8 spaces, tab, 2 tabs} x line kinds {text, option, blank, whitespace-only, comment, command, ===}; " +
 				"oracle: running INDENT-DEDENT count never negative, zero at EOF, exactly one EOF and it is last; a case is one container state x operation, or one lexer input; non-trivial = container holds >= 1 element / input has an indented line",
 			StatesMean:  "distinct container states by reflective dump (Q, K) plus distinct lexer inputs (T); transitions = container operations compared with the model / token streams checked",
@@ -217,8 +217,13 @@ func applyStack(hist []int) (s *container.Stack[int], model []int, seq int, mism
 			pan = guard(func() { s.Push(seq) })
 			model = append(model, seq)
 			seq++
-		case 1: // PushAll(2)
-			pan = guard(func() { s.PushAll(seq, seq+1) })
+		case 1: // PushAll(2) from a slice the caller owns, has spare capacity in, and reuses at once
+			buf := make([]int, 2, 8)
+			buf[0], buf[1] = seq, seq+1
+			pan = guard(func() { s.PushAll(buf...) })
+			buf[0], buf[1] = -101, -102
+			buf = append(buf, -103, -104)
+			_ = buf
 			model = append(model, seq, seq+1)
 			seq += 2
 		case 2, 3: // Pop, Peek
